@@ -184,6 +184,8 @@ def contracts(p: Program) -> list[str]:
                'int')''',
             'nsent() <= old(nsent()) + len(self.employees)',
             'implies(len(tasks) == 0, nsent() == old(nsent()))',
+            # every task is forwarded to exactly one employee
+            'B:sent_once(tasks, old(nsent()), nsent())',
         ],
         raises=[],
         modifies=['num_tasks', 'num_idle_workers', 'submit_cache', 'effects'],
@@ -306,12 +308,15 @@ def contracts(p: Program) -> list[str]:
         requires=['Inv_sched(self)', 'Inv_emp(self)'],
         ensures=[
             'Inv_sched(self)', 'Inv_emp(self)',
-            # what goes up is exactly the tail beyond the idle capacity, in
-            # one batch, as the last message
+            # what goes up is one batch, the last message, holding as many
+            # tasks as exceed the idle capacity (which ones is not pinned)
             '''implies(len(tasks) > old(self.num_idle_workers),
                  eff(nsent() - 1, 'outgoing.put', self.upstream,
-                     RuntimeMessage.SUBMIT_BATCH,
-                     tasks[old(self.num_idle_workers):]))''',
+                     RuntimeMessage.SUBMIT_BATCH, ANY)
+                 and len(eff_c(nsent() - 1, 'list[ref[RuntimeTask]]'))
+                     == len(tasks) - old(self.num_idle_workers))''',
+            # every task goes to exactly one place (an employee or upstream)
+            'B:sent_once(tasks, old(nsent()), nsent())',
             '''implies(old(self.num_idle_workers) != 0,
                  eff(old(nsent()), 'outgoing.put', self.upstream,
                      RuntimeMessage.UPDATE, old(self.num_idle_workers)))''',
